@@ -1,6 +1,6 @@
 """C18 — coroutine primitives (DESIGN §4 C18)."""
 from tbxlint.facts import extract, AnalysisBroken, instantiate_unit
-from tbxlint import locks, q
+from tbxlint import locks, q, rd
 
 CO = 'tbox::coroutine::'
 SCH = CO + 'Scheduler'
@@ -42,42 +42,55 @@ def r1(ctx, prog):
 
 def r2(ctx, prog):
     ctx.rule('C18.R2', 'A4: wake-up is not gated on the resource state: the poster resumes a queued waiter whenever the waiter queue is non-empty', floor=3)
+    def cond_fields(g, cnd):
+        """fields a condition depends on, local flags replaced by the fields of their definitions (one level)"""
+        out = {x.split('::')[-1] for x in q.subtree_fields(g, cnd)}
+        for x in g.walk(cnd):
+            sx = g.stmts[x]
+            if sx['k'] == 'DeclRefExpr' and sx.get('dk') == 'Var' and not sx.get('gl'):
+                for d in rd.local_defs(g, sx['d']):
+                    if d['rhs'] is not None:
+                        out |= {y.split('::')[-1] for y in q.subtree_fields(g, d['rhs'])}
+        return out
     for cls, blk, post, wq, res in PRIMS:
-        f0 = prog.fn1(cls + '::' + post)
-        # the wake-up may sit in a private helper of the same class (e.g. wakeupOne())
-        cands = [f0] + [h for c in f0.calls() for h in prog.by_usr.get(c.get('usr'), ()) if not h.parent_usr and h.name.startswith(cls + '::')]
-        cands = [g for g in cands if sch_calls(g, 'resume')]
-        if not cands:
-            ctx.ob('C18.R2', '%s|wakes' % f0.name, False, 'the poster never resumes a waiter', where=f0.loc(f0.body))
-            continue
-        f = cands[0]
-        rs = sch_calls(f, 'resume')
-        if f is not f0:
-            # the helper call itself must not be gated on the resource state in the poster
-            for c in f0.calls():
-                if c.get('usr') == f.usr:
-                    flds0 = set()
-                    for cnd, br in q.lexical_guards(f0, c['i']):
-                        flds0 |= {x.split('::')[-1] for x in q.subtree_fields(f0, cnd)}
-                    ctx.ob('C18.R2', '%s|helper-ungated' % f0.name, not (flds0 & set(res)), 'the wake-up helper %s is called unconditionally w.r.t. the resource' % f.name.split('::')[-1]
-                           if not (flds0 & set(res)) else 'the wake-up helper is only called under a test of the resource state (%s)' % sorted(flds0), where=f0.loc(c['i']))
-        for r in rs:
-            gs = q.lexical_guards(f, r['i'])
-            flds = set()
-            for c, br in gs:
-                flds |= {x.split('::')[-1] for x in q.subtree_fields(f, c)}
-            # every branch that decides whether the wake-up happens (early returns included), not only the enclosing ifs
-            for c, k, b in f.cfg.controlling_branches(q.pt(f, r)):
-                flds |= {x.split('::')[-1] for x in q.subtree_fields(f, c)}
-            ok = wq in flds and not (flds - {wq})
-            ctx.ob('C18.R2', '%s|wake-ungated' % f.name, ok,
-                   'resume() is conditional only on the waiter queue (%s)' % sorted(flds) if ok else
-                   'resume() is also conditional on state other than the waiter queue (%s): a post can then wake nobody although a waiter is queued and the resource is available' % sorted(flds - {wq}),
-                   where=f.loc(r['i']))
-            # the resumed token is the one popped from the front
-            fr = [st for st in f.calls() if st.get('fn') == 'front' and 'obj' in st and (f.field_of(st['obj']) or '').endswith('::' + wq)]
-            pp = [st for st in f.calls() if st.get('fn') in ('pop', 'pop_front') and 'obj' in st and (f.field_of(st['obj']) or '').endswith('::' + wq)]
-            ctx.ob('C18.R2', '%s|fifo-wake' % f.name, bool(fr) and bool(pp) and f.cfg.dominates(q.pt(f, fr[0]), q.pt(f, r)), 'the waiter at the front of the queue is popped and resumed', where=f.loc(r['i']))
+      posters = [g for g in prog.fn(cls + '::' + post) if not g.parent_usr]
+      if not posters:
+        raise AnalysisBroken('anchor function %s::%s not found' % (cls, post))
+      for f0 in posters:       # every overload of the posting operation (const T&, T&&, ...)
+          # the wake-up may sit in a private helper of the same class (e.g. wakeupOne())
+          cands = [f0] + [h for c in f0.calls() for h in prog.by_usr.get(c.get('usr'), ()) if not h.parent_usr and h.name.startswith(cls + '::')]
+          cands = [g for g in cands if sch_calls(g, 'resume')]
+          if not cands:
+              ctx.ob('C18.R2', '%s|wakes' % f0.name, False, 'the poster never resumes a waiter', where=f0.loc(f0.body))
+              continue
+          f = cands[0]
+          rs = sch_calls(f, 'resume')
+          if f is not f0:
+              # the helper call itself must not be gated on the resource state in the poster
+              for c in f0.calls():
+                  if c.get('usr') == f.usr:
+                      flds0 = set()
+                      for cnd, br in q.lexical_guards(f0, c['i']):
+                          flds0 |= cond_fields(f0, cnd)
+                      ctx.ob('C18.R2', '%s|helper-ungated' % f0.name, not (flds0 & set(res)), 'the wake-up helper %s is called unconditionally w.r.t. the resource' % f.name.split('::')[-1]
+                             if not (flds0 & set(res)) else 'the wake-up helper is only called under a test of the resource state (%s)' % sorted(flds0), where=f0.loc(c['i']))
+          for r in rs:
+              gs = q.lexical_guards(f, r['i'])
+              flds = set()
+              for c, br in gs:
+                  flds |= {x.split('::')[-1] for x in q.subtree_fields(f, c)}
+              # every branch that decides whether the wake-up happens (early returns included), not only the enclosing ifs
+              for c, k, b in f.cfg.controlling_branches(q.pt(f, r)):
+                  flds |= {x.split('::')[-1] for x in q.subtree_fields(f, c)}
+              ok = wq in flds and not (flds - {wq})
+              ctx.ob('C18.R2', '%s|wake-ungated' % f.name, ok,
+                     'resume() is conditional only on the waiter queue (%s)' % sorted(flds) if ok else
+                     'resume() is also conditional on state other than the waiter queue (%s): a post can then wake nobody although a waiter is queued and the resource is available' % sorted(flds - {wq}),
+                     where=f.loc(r['i']))
+              # the resumed token is the one popped from the front
+              fr = [st for st in f.calls() if st.get('fn') == 'front' and 'obj' in st and (f.field_of(st['obj']) or '').endswith('::' + wq)]
+              pp = [st for st in f.calls() if st.get('fn') in ('pop', 'pop_front') and 'obj' in st and (f.field_of(st['obj']) or '').endswith('::' + wq)]
+              ctx.ob('C18.R2', '%s|fifo-wake' % f.name, bool(fr) and bool(pp) and f.cfg.dominates(q.pt(f, fr[0]), q.pt(f, r)), 'the waiter at the front of the queue is popped and resumed', where=f.loc(r['i']))
 
 
 def r3(ctx, prog):
